@@ -1,6 +1,6 @@
 (** Commands.v — the command table of the model runner. Every command maps
     a [val] to a [val]; the OCaml driver only parses and prints. *)
-From JSL Require Import Base Instance Dstate Filters World Observers Session Feasible.
+From JSL Require Import Base Instance Dstate Filters World Observers Session Feasible Derived QuerySpec.
 From JSL Require CmdC03 CmdC14 CmdC15 CmdC16 CmdC19 CmdC20.
 
 Definition cmd_feasible (v : val) : val :=
@@ -14,6 +14,28 @@ Definition cmd_feasible_many (v : val) : val :=
   VL (map (fun r => let S := dec_sched r in
                     VL (map vbool (feasible_clauses I S ++ [completeb I S]))) (asL (vnth v 1))).
 
+(** oracle: queries recomputed from scratch from schedule rows.
+    [I; fs; [[rows; q; arg] ...]] *)
+Definition cmd_spec_queries (v : val) : val :=
+  let I := dec_instance (vnth v 0) in
+  let fs := asLof dec_fname (vnth v 1) in
+  VL (map (fun c => pure_query I fs (dstate_of I (dec_sched (vnth c 0))) (asZ (vnth c 1)) (vnth c 2))
+          (asL (vnth v 2))).
+
+(** oracle: book-keeping recomputed from scratch from schedule rows.
+    [I; [rows ...]] -> [[dstate; count; makespan] ...] *)
+Definition cmd_tracking (v : val) : val :=
+  let I := dec_instance (vnth v 0) in
+  VL (map (fun r => let S := dec_sched r in
+                    VL [enc_dstate (dstate_of I S); vnat (length (all_sops S)); VI (sp_makespan I S); VI (sp_idle I S)])
+          (asL (vnth v 1))).
+
+(** oracle: forced start times. [I; [[rows_before; j; p; m] ...]] *)
+Definition cmd_forced (v : val) : val :=
+  let I := dec_instance (vnth v 0) in
+  VL (map (fun c => VI (forced_start I (dec_sched (vnth c 0)) (asN (vnth c 1)) (asN (vnth c 2)) (asN (vnth c 3))))
+          (asL (vnth v 1))).
+
 (** Commands < 100: the dispatcher world (this file). Commands [100*k + n]:
     property Ck's own table ([CmdCk.run_ck n]). *)
 Definition run_core (c : Z) (v : val) : val :=
@@ -21,6 +43,9 @@ Definition run_core (c : Z) (v : val) : val :=
   | 1 => cmd_session v
   | 2 => cmd_feasible v
   | 3 => cmd_feasible_many v
+  | 4 => cmd_spec_queries v
+  | 5 => cmd_tracking v
+  | 6 => cmd_forced v
   | _ => VL []
   end.
 
